@@ -213,7 +213,8 @@ fn mutate_in_place(r: &mut Rng, s: &mut Schema, depth: u32) -> Option<&'static s
                     Some("variant-added")
                 }
                 1 if !en.variants.is_empty() => {
-                    let i = r.below(en.variants.len() as u64) as usize;
+                    // (the last one half of the time: everything before it still matches)
+                    let i = if r.chance(1, 2) { en.variants.len() - 1 } else { r.below(en.variants.len() as u64) as usize };
                     en.variants.remove(i);
                     Some("variant-removed")
                 }
